@@ -26,10 +26,15 @@ FFT_Processor_fftw::FFT_Processor_fftw(const int32_t N): _2N(2*N),N(N),Ns2(N/2) 
     TFHE_VERIF_EVENT("ProcCtor", this, rev_in, 0, 0);
 }
 
+//the FFTW planner (plan creation and destruction) is not thread safe: one mutex for both
+static std::mutex& fftw_planner_mutex() {
+    static std::mutex mutex;
+    return mutex;
+}
+
 void FFT_Processor_fftw::plan_fftw() {
     //ensure fftw plan thread safety
-    static std::mutex mutex;
-    std::lock_guard<std::mutex> lock(mutex);
+    std::lock_guard<std::mutex> lock(fftw_planner_mutex());
     TFHE_VERIF_EVENT("LockAcq", this, 0, 0, 0);
     TFHE_VERIF_EVENT("PlanCreate", this, 0, 0, 0);
     rev_p = fftw_plan_dft_r2c_1d(_2N, rev_in, rev_out, FFTW_ESTIMATE);
@@ -76,10 +81,13 @@ void FFT_Processor_fftw::execute_direct_Torus32(Torus32* res, const cplx* a) {
 
 FFT_Processor_fftw::~FFT_Processor_fftw() {
     TFHE_VERIF_EVENT("ProcDtor", this, rev_in, 0, 0);
+    {
+    std::lock_guard<std::mutex> lock(fftw_planner_mutex());
     TFHE_VERIF_EVENT("PlanDestroy", this, 0, 0, 0);
     fftw_destroy_plan(p);
     fftw_destroy_plan(rev_p);
     TFHE_VERIF_EVENT("PlanDestroyed", this, 0, 0, 0);
+    }
     fftw_free(in); fftw_free(rev_out);	
     free(rev_in); free(out);
     delete[] omegaxminus1;
